@@ -25,6 +25,8 @@ def in_module_program(plan, accesses):
             lines.append(f'  println!("{pi} {name} {{}}", <{ty}>::{name});')
         elif kind == "fn":
             lines.append(f'  println!("{pi} {name} {{}}", <{ty}>::{name}());')
+        elif kind == "ufn":
+            lines.append(f'  println!("{pi} {name} {{}}", unsafe {{ <{ty}>::{name}() }});')
         elif kind == "pfn":
             n = plan.notes.get("pfn_arity", 1)
             lines.append(f'  println!("{pi} {name} {{}}", <{ty}>::{name}({", ".join(["None"] * n)}));')
@@ -75,7 +77,7 @@ def run(tier, seed, replay=None):
             row = ev.mt.get(pi, [])
             if len(app) == 1:
                 bi = app[0]
-                printed = [it for it in plan.items if it[0] in ("const", "fn", "pfn")]
+                printed = [it for it in plan.items if it[0] in ("const", "fn", "ufn", "pfn")]
                 for j, (kind, name, _) in enumerate(printed):
                     want = f"b{bi}.{name}"
                     got = row[1 + j] if 1 + j < len(row) else "?"
@@ -92,7 +94,7 @@ def run(tier, seed, replay=None):
             bi = ev.applicable(pi)[0]
             m = blocks[bi][2]
             for kind, name, _ in plan.items:
-                if kind not in ("const", "fn", "pfn"):
+                if kind not in ("const", "fn", "ufn", "pfn"):
                     continue
                 vis = m.vis.get(name, "")
                 (readable if vis.startswith("pub") else hidden).append((pi, kind, name, bi))
